@@ -100,7 +100,14 @@ def run(ctx):
             do(op)
         nops = rnd.choice([10, 20, 40, 60])
         for step in range(nops):
-            do(model.gen_edit(allow_pop=False))
+            if rnd.random() < 0.12:
+                batch = model.gen_burst()
+            else:
+                batch = [model.gen_edit(allow_pop=False)]
+            for op in batch:
+                if op["op"] == "rm_iv" and not model.ivs[op["id"]]["sec"]:
+                    continue
+                do(op)
             for k, (name, rep) in enumerate(zip(SCHEDULES, reps)):
                 r = srnd[k]
                 if name == "none":
